@@ -72,14 +72,14 @@ Definition pool_own (mac ip : N) (a : amap N) : bool :=
 Definition dwf (c : dcfg) (s : dst) (mac : N) (l : lease) : bool :=
   pool_own mac (l_ip l) (alloc s) &&
   (ahas mac (alloc s) || smem (l_ip l) (avail s) || smem (l_ip l) (unavail s)) &&
-  (c_nat c || negb (smem (l_ip l) (nat s))) && (c_qos c || negb (smem (l_ip l) (qos s) || smem (l_ip l) (qosi s) || smem (l_ip l) (qost s))) &&
+  (if c_nat c then smem (l_ip l) (nat s) || negb (smem (l_ip l) (natk s)) else negb (smem (l_ip l) (nat s) || smem (l_ip l) (natk s))) && (c_qos c || negb (smem (l_ip l) (qos s) || smem (l_ip l) (qosi s) || smem (l_ip l) (qost s))) &&
   negb (existsb (fun p => snd p =? l_ip l) (cvlan s)) &&
   ((l_sid l =? 0) || ((count (l_sid l) (stops s) =? 0) && (c_radius c || (count (l_sid l) (starts s) =? 0)))).
 
 (* "holds nothing" as one boolean *)
 Definition dfree (s : dst) (e : dsess) : bool :=
   negb (ahas (se_mac e) (alloc s)) && (smem (se_ip e) (avail s) || smem (se_ip e) (unavail s)) &&
-  negb (smem (se_ip e) (nat s)) && negb (smem (se_ip e) (qos s) || smem (se_ip e) (qosi s) || smem (se_ip e) (qost s)) && negb (ahas (se_mac e) (cmac s)) &&
+  negb (smem (se_ip e) (nat s) || smem (se_ip e) (natk s)) && negb (smem (se_ip e) (qos s) || smem (se_ip e) (qosi s) || smem (se_ip e) (qost s)) && negb (ahas (se_mac e) (cmac s)) &&
   ((se_cid e =? 0) || (negb (ahas (se_cid e) (chash s)) && negb (ahas (se_cid e) (csub s)))) &&
   negb (existsb (fun p => snd p =? se_ip e) (cvlan s)) &&
   ((se_sid e =? 0) || (count (se_sid e) (starts s) =? 0) || (count (se_sid e) (stops s) =? 1)).
@@ -152,18 +152,20 @@ Qed.
 
 (* the post-state of release_rest, field by field *)
 Lemma release_rest_free (c : dcfg) (s : dst) (mac : N) (l : lease) :
-  (c_nat c || negb (smem (l_ip l) (nat s))) = true ->
+  (if c_nat c then smem (l_ip l) (nat s) || negb (smem (l_ip l) (natk s)) else negb (smem (l_ip l) (nat s) || smem (l_ip l) (natk s))) = true ->
   (c_qos c || negb (smem (l_ip l) (qos s) || smem (l_ip l) (qosi s) || smem (l_ip l) (qost s))) = true ->
   ((l_sid l =? 0) || ((count (l_sid l) (stops s) =? 0) && (c_radius c || (count (l_sid l) (starts s) =? 0)))) = true ->
   let s' := fst (release_rest c s mac l) in
-  smem (l_ip l) (nat s') = false /\ smem (l_ip l) (qos s') || smem (l_ip l) (qosi s') || smem (l_ip l) (qost s') = false /\ ahas mac (cmac s') = false /\
+  smem (l_ip l) (nat s') || smem (l_ip l) (natk s') = false /\ smem (l_ip l) (qos s') || smem (l_ip l) (qosi s') || smem (l_ip l) (qost s') = false /\ ahas mac (cmac s') = false /\
   ((l_cid l =? 0) || (negb (ahas (l_cid l) (chash s')) && negb (ahas (l_cid l) (csub s')))) = true /\
   ((l_sid l =? 0) || (count (l_sid l) (starts s') =? 0) || (count (l_sid l) (stops s') =? 1)) = true /\
   alloc s' = alloc s /\ avail s' = avail s /\ unavail s' = unavail s /\ cvlan s' = cvlan s /\ leases s' = leases s.
 Proof.
   intros Hn Hq Ha. unfold release_rest. simpl.
   repeat split; auto.
-  - destruct (c_nat c); simpl in *; [apply smem_sdel_same|now apply negb_true_iff].
+  - destruct (c_nat c); simpl in *; [|now apply negb_true_iff].
+    rewrite smem_sdel_same. simpl.
+    destruct (smem (l_ip l) (nat s)); simpl in *; [apply smem_sdel_same|now apply negb_true_iff].
   - destruct (c_qos c); simpl in *; [now rewrite !smem_sdel_same|now apply negb_true_iff].
   - apply ahas_adel_same.
   - destruct (l_cid l =? 0); simpl; auto. now rewrite !ahas_adel_same.
@@ -234,7 +236,7 @@ Proof.
   assert (PO : pool_own mac (l_ip l) (alloc s) = true) by (unfold pool_own; rewrite W, H4; reflexivity).
   unfold expire_one. rewrite HL.
   apply Z.ltb_lt in T. rewrite T.
-  assert (Hn : (c_nat c || negb (smem (l_ip l) (nat (pool_release (drop_lease s mac l) (l_ip l))))) = true).
+  assert (Hn : (if c_nat c then smem (l_ip l) (nat (pool_release (drop_lease s mac l) (l_ip l))) || negb (smem (l_ip l) (natk (pool_release (drop_lease s mac l) (l_ip l)))) else negb (smem (l_ip l) (nat (pool_release (drop_lease s mac l) (l_ip l))) || smem (l_ip l) (natk (pool_release (drop_lease s mac l) (l_ip l))))) = true).
   { unfold pool_release. simpl. destruct (drop_val (l_ip l) (alloc s)); exact H2. }
   assert (Hq : (c_qos c || negb (smem (l_ip l) (qos (pool_release (drop_lease s mac l) (l_ip l))) || smem (l_ip l) (qosi (pool_release (drop_lease s mac l) (l_ip l))) || smem (l_ip l) (qost (pool_release (drop_lease s mac l) (l_ip l))))) = true).
   { unfold pool_release. simpl. destruct (drop_val (l_ip l) (alloc s)); exact H1. }
@@ -322,7 +324,7 @@ Qed.
 
 Lemma cvlan_step (c : dcfg) (s : dst) (o : dop) : cvlan (fst (fst (dstep c s o))) = cvlan s.
 Proof.
-  destruct o as [mac cid rel|mac ip cid rel|mac|mac ip|d|order]; simpl.
+  destruct o as [mac cid rel|mac ip cid rel|mac|mac ip|d|order|k]; simpl; [| | | | | |reflexivity].
   - destruct (existing s mac cid rel) as [l|]; [destruct (0 <? l_ttl l)%Z; simpl; auto|];
       (destruct (pool_allocate s mac) as [[ip s']|] eqn:PA; simpl; auto;
        unfold pool_allocate in PA; destruct (aget mac (alloc s)); [inversion PA; subst; auto|];
@@ -756,3 +758,15 @@ Lemma d_half_installed_example :
             smem 2 (qos stDf) = true /\ smem 2 (qosi stDf) = false /\ smem 2 (qost stDf) = false /\
             dheld (fst (fst (dstep cfgDf stDf (Release 1)))) (dsess_lease 1 l) = [].
 Proof. eexists. vm_compute. repeat split. Qed.
+
+(* a REQUEST of the lease's owner for its address is a renewal WHATEVER the age of the lease (also when it
+   has run out and the reaper has not met it yet): ACK, no Accounting-Start, same accounting session *)
+Lemma d_renewal_no_new_session (c : dcfg) (s : dst) (mac cid : N) (relayed : bool) (l : lease) :
+  aget mac (leases s) = Some l ->
+  snd (fst (dstep c s (Request mac (l_ip l) cid relayed))) = (2, l_ip l, []) /\
+  starts (fst (fst (dstep c s (Request mac (l_ip l) cid relayed)))) = starts s /\
+  exists l', aget mac (leases (fst (fst (dstep c s (Request mac (l_ip l) cid relayed))))) = Some l' /\ l_sid l' = l_sid l.
+Proof.
+  intro H. unfold dstep, existing. rewrite H, N.eqb_refl. cbv zeta. simpl.
+  rewrite aget_aput_same. repeat split. eexists. split; reflexivity.
+Qed.
